@@ -22,6 +22,7 @@ package main
 //   sa/invalid-token  INVALID_TOKEN is written only for an intact Initial with an invalid Retry token, with error code 0xb
 //   sa/one-conn       at most one connection per client DCID; a later Initial with that DCID is routed to it
 //   sa/0rtt-bounds    at most Max0RTTQueues queues of at most Max0RTTQueueLen packets; none without early-connection support
+//   sa/retry-0rtt     a Retry deletes the 0-RTT queue of that DCID
 //   sa/conn-args      newConn gets ODCID/RSCID from a valid Retry token, else the packet's DCID and no RSCID
 
 import (
@@ -240,6 +241,9 @@ func (c *saCtx) recv(pktTerm string, data []byte, e saExpect, desc string) {
 			}
 			if created || after.Handlers != before.Handlers {
 				c.fail("sa/retry-only", desc+": Retry queued and state created")
+			}
+			if n, ok := after.ZeroRTT[string(e.dcid)]; ok {
+				c.fail("sa/retry-0rtt", fmt.Sprintf("%s answered with a Retry but %d 0-RTT packets stay queued for that DCID (they belong to the invalidated attempt)", desc, n))
 			}
 			c.pendingRetry = append(c.pendingRetry, saRej{e.addr, e.dcid, e.scid, e.intact, e.ver})
 		}
